@@ -392,6 +392,24 @@ fn corpus_event(lines: &Vec<Vec<String>>, final_nl: bool, extra: Value) -> Value
     }
 }
 
+/// A corpus whose bytes are not valid UTF-8 at one place (a file cut inside a multi-byte character,
+/// a line in another encoding): the reader must report an error, never return the examples read so far.
+fn corpus_invalid_event(rng: &mut Rng) -> Value {
+    let mut bytes: Vec<u8> = "東京\t名詞,トーキョー\nに\t助詞,ニ\nEOS\n行く\t動詞,イク\nEOS\n".as_bytes().to_vec();
+    let how = match rng.below(3) {
+        0 => { let p = rng.below(bytes.len()); bytes.insert(p, 0xFF); "stray-0xFF" }
+        1 => { let p = 1 + rng.below(5); bytes.remove(p); "byte-of-a-multi-byte-character-lost" }
+        _ => { let p = bytes.len() - 12; bytes.splice(p..p, [0x93u8, 0x8C]); "shift-jis-bytes" }
+    };
+    let valid = std::str::from_utf8(&bytes).is_ok();
+    let r = catch_unwind(AssertUnwindSafe(|| Corpus::from_reader(bytes.as_slice()).map(|c| c.len())));
+    match r {
+        Ok(Ok(n)) => json!({"ev": "corpus_bytes", "how": how, "valid_utf8": valid, "ok": true, "examples": n}),
+        Ok(Err(_)) => json!({"ev": "corpus_bytes", "how": how, "valid_utf8": valid, "ok": false, "examples": 0}),
+        Err(_) => json!({"ev": "panic", "op": {"op": "corpus"}, "how": how}),
+    }
+}
+
 pub fn corpus_cases(a: &HashMap<String, String>) -> i32 {
     let mut f = open(a);
     for (i, v) in read_lines(a).iter().enumerate() {
@@ -456,6 +474,9 @@ pub fn record_corpus(a: &HashMap<String, String>) -> i32 {
             l.iter().map(|p| p.to_string()).collect()
         }).collect();
         writeln!(f, "{}", corpus_event(&lines, i % 3 != 0, json!({}))).unwrap();
+        if i % 25 == 0 {
+            writeln!(f, "{}", corpus_invalid_event(&mut rng)).unwrap();
+        }
     }
     0
 }
@@ -516,7 +537,8 @@ pub struct MecabCase {
 
 pub fn gen_mecab_case(rng_in: &mut Rng) -> MecabCase {
     let mut rng = rng_in.fork();
-    let vals = ["a", "b", "*", "名詞", "c"];
+    // feature cells of the id tables; one of them needs CSV quoting (a comma inside the cell)
+    let vals = ["a", "b", "*", "名詞", "c", "q,r"];
     let t = gen_templates(&mut rng, false);
         let table = |rng: &mut Rng, bad: u8| -> Vec<(usize, Vec<String>)> {
             let nids = 1 + rng.below(4);
@@ -569,7 +591,7 @@ pub fn gen_mecab_case(rng_in: &mut Rng) -> MecabCase {
                 if broken && i == tab.len() - 1 {
                     s.push_str("not-a-line\n");
                 }
-                s.push_str(&format!("{} {}\n", id, feats.join(",")));
+                s.push_str(&format!("{} {}\n", id, feats.iter().map(|c| crate::adict::csv_cell(c)).collect::<Vec<_>>().join(",")));
             }
             s
         };
